@@ -172,9 +172,11 @@ PROPS = {
         "bin": "c15",
         "explanation": "Relational checking in mode R: inside one execution two (three) real interpolators are built from related symbolic inputs - data scaled by a symbolic factor, sum of two data sets, axis and "
                        "queries shifted or scaled (derivative boundary values converted) - and queried in one batch at concrete abscissae (4 per spline piece, 2 per linear bracket, 2x2 per bilinear cell, plus points beyond "
-                       "both ends). z3 proves each relation for ALL data values, boundary values and the symbolic scale factor; agreement at 4 points per cubic piece extends to every query by the identity theorem (not solver-discharged).",
+                       "both ends). z3 proves each relation for ALL data values, boundary values and the symbolic scale factor; agreement at 4 points per cubic piece extends to every query by the identity theorem (not solver-discharged). "
+                       "A solver counterexample of an axis-scale obligation that the exact replay in the model's ordinary units does not show (an absolute constant added to a length only matters in tiny units) is "
+                       "confirmed by a native unit sweep: the real crate at f64 with the model's data in unit 1 against the units 2^-997 .. 2^960; this step only runs after the solver refuted the obligation.",
         "trusted_base": R_TRUST,
-        "technique": "symbolic execution of 2-3 related interpolators in one execution + z3 (QF_NRA with symbolic scale factor) at concrete query abscissae; exact-rational replay via variable bindings",
+        "technique": "symbolic execution of 2-3 related interpolators in one execution + z3 (QF_NRA with symbolic scale factor) at concrete query abscissae; exact-rational replay via variable bindings, native f64 replay in power-of-two axis units for refuted axis-scale obligations",
         "level_text": "Bounded symbolic model checking of homogeneity, additivity, shift and scale invariance for all data / boundary values / data scale factors, all strategies and the boundary configurations of C03; axis shift and scale symbolic for Linear, from a stated constant list otherwise.",
         "level_note": "Trusted: engine S, z3. Real-number semantics. The bit-for-bit clause for exactly representable changes is NOT decided (stated outside). Concrete query abscissae + identity theorem instead of a symbolic query (symbolic-query relational obligations come back unknown, measured).",
     },
